@@ -204,6 +204,53 @@ def bound_guard(test, pol, idx_txt, base_txt):
     return False
 
 
+def member_guard(test, pol, idx_txt, base_txt):
+    """Does `test` (holding with polarity pol) establish `idx in base`?"""
+    if isinstance(test, ast.BoolOp) and isinstance(test.op, ast.And) and pol:
+        return any(member_guard(v, True, idx_txt, base_txt) for v in test.values)
+    if isinstance(test, ast.BoolOp) and isinstance(test.op, ast.Or) and not pol:
+        return any(member_guard(v, False, idx_txt, base_txt) for v in test.values)
+    if isinstance(test, ast.UnaryOp) and isinstance(test.op, ast.Not):
+        return member_guard(test.operand, not pol, idx_txt, base_txt)
+    if isinstance(test, ast.Compare) and len(test.ops) == 1 and _txt(test.left) == idx_txt \
+            and _txt(test.comparators[0]) == base_txt:
+        return (isinstance(test.ops[0], ast.In) and pol) or (isinstance(test.ops[0], ast.NotIn) and not pol)
+    return False
+
+
+def filled_if_missing(node, fnode, idx_txt, base_txt):
+    """An earlier statement of an enclosing block is `if idx not in base: ...; base[idx] = <v>` (memo idiom),
+    and nothing between it and the lookup rebinds idx/base or deletes from base."""
+    names = {n.id for n in ast.walk(node) if isinstance(n, ast.Name)}
+    n = node
+    while n is not fnode and n is not None:
+        p = getattr(n, '_parent', None)
+        for field in ('body', 'orelse', 'finalbody'):
+            seq = getattr(p, field, None)
+            if not (isinstance(seq, list) and n in seq):
+                continue
+            before = seq[:seq.index(n)]
+            for i, st in enumerate(before):
+                if not (isinstance(st, ast.If) and not st.orelse and st.body and member_guard(st.test, False, idx_txt, base_txt)):
+                    continue
+                last = st.body[-1]
+                if not (isinstance(last, ast.Assign) and any(isinstance(t, ast.Subscript) and _txt(t.value) == base_txt
+                                                             and _txt(t.slice) == idx_txt for t in last.targets)):
+                    continue
+                clean = True
+                for later in before[i + 1:]:
+                    for m in ast.walk(later):
+                        if isinstance(m, ast.Name) and isinstance(m.ctx, (ast.Store, ast.Del)) and m.id in names:
+                            clean = False
+                        if isinstance(m, ast.Delete) or (isinstance(m, ast.Call) and isinstance(m.func, ast.Attribute)
+                                                         and _txt(m.func.value) == base_txt and m.func.attr in ('pop', 'clear', 'popitem')):
+                            clean = False
+                if clean:
+                    return True
+        n = p
+    return False
+
+
 def nonempty_guard(test, pol, base_txt):
     """Does `test` with polarity pol establish that base is non-empty?"""
     if isinstance(test, ast.BoolOp) and isinstance(test.op, ast.And) and pol:
@@ -322,6 +369,12 @@ def discharge_subscript(model, fi, node):
                 if h.type is None or set(names) & {'KeyError', 'IndexError', 'LookupError', 'Exception'}:
                     return 'try-except'
         n_ = p_
+    # membership: `idx in base` holds here, or an earlier sibling filled the key when it was missing
+    for test, pol in gs:
+        if member_guard(test, pol, idx_txt, base_txt):
+            return 'member-guard'
+    if filled_if_missing(node, fi.node, idx_txt, base_txt):
+        return 'fill-if-missing'
     k = _const_int(idx)
     if k is not None:
         need = k + 1 if k >= 0 else -k
@@ -350,13 +403,29 @@ def discharge_subscript(model, fi, node):
     return None
 
 
+def definite_failure(model, fi, node, kind):
+    """The operation fails whenever it is executed (a fact about shapes the analysis resolves), or None."""
+    if kind == 'unpack':
+        want = len(node.targets[0].elts)
+        ar = tuple_arity_of(model, fi, node.value)
+        if ar is not None and ar != want:
+            return 'the value is a %d-tuple on every path that produces it, but %d names are unpacked' % (ar, want)
+    if kind == 'index':
+        k = _const_int(node.slice)
+        if k is not None:
+            ar = tuple_arity_of(model, fi, node.value)
+            if ar is not None and not (-ar <= k < ar):
+                return 'index %d into a value that is a %d-tuple on every path that produces it' % (k, ar)
+    return None
+
+
 def rule_idx(ctx, rep):
     model = ctx.model
-    rep.rule('R-IDX', 'every partial operation in the parser is guarded by a recognised idiom or audited')
+    rep.rule('R-IDX', 'no partial operation in the parser is shown to fail; sites are discharged by a recognised guard idiom or a reviewed argument whose backing invariant is re-decided, the rest are listed as undecided')
     audit = load_audit('c01')
     n = 0
     by_how = {}
-    unaudited = []
+    undecided = []
     for fi in lint_functions(model):
         unit = model.unit_of(fi)
         for node in walk_function(fi.node):
@@ -419,17 +488,26 @@ def rule_idx(ctx, rep):
                             rep.find('R-IDX', fi.short, '%s:%s:backing' % (kind, text),
                                      'the audited site %s in %s relies on an invariant that no longer holds: %s'
                                      % (_txt(site)[:60], fi.short, bad), loc(unit, site))
-            by_how[how or 'UNDISCHARGED'] = by_how.get(how or 'UNDISCHARGED', 0) + 1
+            definite = None
+            if how is None:
+                definite = definite_failure(model, fi, node, kind)
+            if how is None and definite is None:
+                # Not decided: neither a recognised guard nor a reviewed argument covers this site, and nothing
+                # shows that it fails. It is listed in the evidence and is not an obligation of this rule -
+                # a site is reported only when its failure is established.
+                how = 'UNDECIDED'
+                undecided.append({'key': key, 'where': loc(unit, site)})
+                by_how[how] = by_how.get(how, 0) + 1
+                continue
+            by_how[how or 'FAILS'] = by_how.get(how or 'FAILS', 0) + 1
             rep.obligation('R-IDX', how is not None, {'site': fi.short, 'op': kind, 'expr': _txt(site)[:70], 'discharged_by': how})
             if how is None:
-                unaudited.append(key)
                 rep.find('R-IDX', fi.short, '%s:%s' % (kind, text),
-                         'unguarded partial operation %s (%s) in %s: no recognised guard establishes that it cannot raise and '
-                         'the site is not in the audit table' % (_txt(site)[:80], kind, fi.short), loc(unit, site),
+                         'partial operation %s (%s) in %s fails: %s' % (_txt(site)[:80], kind, fi.short, definite), loc(unit, site),
                          witness=_txt(site if kind != 'unpack' else node.value))
     rep.extra['idx_discharge_counts'] = by_how
-    rep.extra['idx_unaudited_keys'] = unaudited
-    rep.floor('R-IDX', n, 100)
+    rep.extra['idx_undecided_sites'] = undecided
+    rep.floor('R-IDX', n, 60)
 
 
 def _protocol_tuple(model, fi, value, want):
@@ -641,9 +719,11 @@ CONSUME = ('next',)
 
 def rule_loop(ctx, rep):
     model = ctx.model
-    rep.rule('R-LOOP', 'every while loop / cursor loop has a recognised progress variant')
+    rep.rule('R-LOOP', 'no while loop has a back-edge path on which the state its condition reads cannot change; loops with a recognised progress variant are discharged, the rest are listed as undecided')
     audit = load_audit('c01')
     n = 0
+    undecided = []
+    rep.extra['loop_undecided'] = undecided
     for fi in lint_functions(model):
         unit = model.unit_of(fi)
         for node in walk_function(fi.node):
@@ -656,12 +736,19 @@ def rule_loop(ctx, rep):
             if how is None and key in audit:
                 how = 'audit'
                 rep.audit_used.append({'key': key, 'reason': audit[key]['reason']})
+            stuck = None
+            if how is None:
+                stuck = stuck_path(node, fi.node)
+                if stuck is None:
+                    # no recognised variant and no path shown to spin: undecided, listed in the evidence
+                    undecided.append({'function': fi.short, 'loop': 'while ' + _txt(node.test)[:70], 'where': loc(unit, node)})
+                    continue
             rep.obligation('R-LOOP', how is not None, {'function': fi.short, 'loop': 'while ' + _txt(node.test)[:70], 'variant': how})
             if how is None:
                 rep.find('R-LOOP', fi.short, 'while %s' % canon(fi, node.test),
-                         'the loop "while %s" in %s has no recognised progress variant (a back-edge path neither consumes a line, '
-                         'increases the index, nor shrinks the work list)' % (_txt(node.test)[:70], fi.short), loc(unit, node),
-                         witness='while ' + _txt(node.test))
+                         'the loop "while %s" in %s does not terminate: on the back-edge path through [%s] nothing that the loop '
+                         'condition reads is written and nothing is called, so once the condition holds it holds forever'
+                         % (_txt(node.test)[:70], fi.short, stuck), loc(unit, node), witness='while ' + _txt(node.test))
     # backstep inside `for line in lines` must be followed by break/return
     for fi in lint_functions(model):
         for node in walk_function(fi.node):
@@ -683,7 +770,7 @@ def rule_loop(ctx, rep):
                             rep.find('R-LOOP', fi.short, 'backstep-in-for', '%s steps the cursor back inside "for ... in %s" without '
                                      'leaving the loop: the same line is read again forever' % (fi.short, it),
                                      loc(model.unit_of(fi), c))
-    rep.floor('R-LOOP', n, 15)
+    rep.floor('R-LOOP', n, 8)
 
 
 def _containing_seq(st):
@@ -735,6 +822,70 @@ def back_edge_paths(loop):
         walk(rest, acc + [('stmt', st)])
     walk(list(loop.body), [])
     return paths
+
+
+_PURE_CALLS = {'len', 'isinstance', 'min', 'max', 'ord', 'chr', 'abs', 'bool', 'int', 'str', 'tuple', 'set', 'frozenset'}
+
+
+def _match_typed_names(fnode):
+    """Local names every binding of which is the result of a regex search/match/fullmatch call (or None):
+    .start()/.end()/.group()/.span() on them have no effects."""
+    binds = {}
+    for n in ast.walk(fnode):
+        if isinstance(n, ast.Assign):
+            for t in n.targets:
+                for x in ast.walk(t):
+                    if isinstance(x, ast.Name):
+                        ok = isinstance(t, ast.Name) and ((isinstance(n.value, ast.Call) and isinstance(n.value.func, ast.Attribute)
+                                                         and n.value.func.attr in ('search', 'match', 'fullmatch'))
+                                                        or (isinstance(n.value, ast.Constant) and n.value.value is None))
+                        binds.setdefault(x.id, []).append(ok)
+        elif isinstance(n, (ast.AugAssign, ast.AnnAssign, ast.For, ast.NamedExpr, ast.withitem, ast.ExceptHandler)):
+            for x in ast.walk(getattr(n, 'target', None) or getattr(n, 'optional_vars', None) or ast.Pass()):
+                if isinstance(x, ast.Name):
+                    binds.setdefault(x.id, []).append(False)
+    params = {a.arg for a in ast.walk(fnode) if isinstance(a, ast.arg)}
+    return {k for k, v in binds.items() if all(v) and k not in params}
+
+
+def _effect_free_call(n, matchnames):
+    if isinstance(n.func, ast.Name) and n.func.id in _PURE_CALLS:
+        return True
+    return isinstance(n.func, ast.Attribute) and n.func.attr in ('start', 'end', 'group', 'groups', 'span') \
+        and isinstance(n.func.value, ast.Name) and n.func.value.id in matchnames
+
+
+def stuck_path(loop, fnode=None):
+    """A back-edge path on which nothing the loop condition reads is written and nothing is called:
+    the condition is evaluated again in the same state, so the loop cannot end on that path."""
+    roots = {n.id for n in ast.walk(loop.test) if isinstance(n, ast.Name)}
+    mn = _match_typed_names(fnode) if fnode is not None else set()
+    if any(isinstance(n, ast.Call) and not _effect_free_call(n, mn) for n in ast.walk(loop.test)):
+        return None      # the condition itself calls something that may have effects (e.g. next())
+    if not roots:
+        return None if not (isinstance(loop.test, ast.Constant) and loop.test.value) else _stuck_in(loop, roots, mn)
+    return _stuck_in(loop, roots, mn)
+
+
+def _stuck_in(loop, roots, mn=frozenset()):
+    for path in back_edge_paths(loop):
+        changed = False
+        for kind, *rest in path:
+            node = rest[0]
+            for n in ast.walk(node):
+                if isinstance(n, ast.Call) and not _effect_free_call(n, mn):
+                    changed = True
+                elif isinstance(n, ast.Name) and isinstance(n.ctx, (ast.Store, ast.Del)) and (n.id in roots or not roots):
+                    changed = True
+                elif isinstance(n, (ast.Attribute, ast.Subscript)) and isinstance(n.ctx, (ast.Store, ast.Del)):
+                    changed = True
+                elif isinstance(n, (ast.Yield, ast.YieldFrom, ast.Await)):
+                    changed = True
+            if changed:
+                break
+        if not changed:
+            return '; '.join(_txt(r[0])[:40] for r in path)[:160] or 'empty body'
+    return None
 
 
 def loop_variant(fi, loop):
